@@ -13,6 +13,25 @@ namespace Cog.Heap
 /-- backing-store addresses are natural numbers (a notation, so that `omega` sees `Nat`) -/
 scoped notation "Addr" => Nat
 
+/-- the shape of a Go field type, as far as aliasing is concerned -/
+inductive Ty where
+  | imm
+  | slice (t : Ty)
+  | map (t : Ty)
+  | ptr (t : Ty)
+  | iface
+  | named (S : String)
+  deriving DecidableEq, Repr, Inhabited
+
+/-- printable name of a type shape (keys of generated tables) -/
+def Ty.show : Ty → String
+  | .imm => "scalar"
+  | .slice t => "[]" ++ t.show
+  | .map t => "map[string]" ++ t.show
+  | .ptr t => "*" ++ t.show
+  | .iface => "any"
+  | .named S => S
+
 /-- A Go value with explicit backing-store identities. -/
 inductive GoNode where
   /-- immutable scalar (string, bool, number, named string type …) -/
@@ -26,8 +45,8 @@ inductive GoNode where
   | gomap (a : Addr) (entries : List (String × GoNode))
   /-- non-nil pointer to a cell `a` holding `n` -/
   | ptr (a : Addr) (n : GoNode)
-  /-- non-nil interface (`any`) holding the dynamic value `n` -/
-  | iface (n : GoNode)
+  /-- non-nil interface (`any`) holding the dynamic value `n` of dynamic type `t` -/
+  | iface (t : Ty) (n : GoNode)
   /-- inline struct value of the named type -/
   | struct (name : String) (fields : List (String × GoNode))
   deriving Repr, Inhabited
@@ -42,7 +61,7 @@ def addrs : GoNode → List Addr
   | .slice a es => a :: addrsL es
   | .gomap a es => a :: addrsE es
   | .ptr a n => a :: addrs n
-  | .iface n => addrs n
+  | .iface _ n => addrs n
   | .struct _ fs => addrsE fs
 def addrsL : List GoNode → List Addr
   | [] => []
@@ -65,7 +84,7 @@ def erase : GoNode → GoNode
       | [] => .nilv
       | l => .gomap 0 l
   | .ptr _ n => .ptr 0 (erase n)
-  | .iface n => .iface (erase n)
+  | .iface t n => .iface t (erase n)
   | .struct name fs => .struct name (eraseE fs)
 def eraseL : List GoNode → List GoNode
   | [] => []
@@ -84,7 +103,7 @@ def write (a : Addr) (f : GoNode → GoNode) : GoNode → GoNode
   | .slice b es => if b = a then f (.slice b (writeL a f es)) else .slice b (writeL a f es)
   | .gomap b es => if b = a then f (.gomap b (writeE a f es)) else .gomap b (writeE a f es)
   | .ptr b n => if b = a then f (.ptr b (write a f n)) else .ptr b (write a f n)
-  | .iface n => .iface (write a f n)
+  | .iface t n => .iface t (write a f n)
   | .struct name fs => .struct name (writeE a f fs)
 def writeL (a : Addr) (f : GoNode → GoNode) : List GoNode → List GoNode
   | [] => []
@@ -102,7 +121,7 @@ def GoNode.beq : GoNode → GoNode → Bool
   | .slice a es, .slice b fs => a == b && beqL es fs
   | .gomap a es, .gomap b fs => a == b && beqE es fs
   | .ptr a n, .ptr b m => a == b && GoNode.beq n m
-  | .iface n, .iface m => GoNode.beq n m
+  | .iface t n, .iface u m => t == u && GoNode.beq n m
   | .struct s es, .struct t fs => s == t && beqE es fs
   | _, _ => false
 def beqL : List GoNode → List GoNode → Bool
@@ -137,10 +156,22 @@ inductive Mode where
   | shared
   /-- not set in the result (left at its zero value) -/
   | omitted
+  /-- an `any` copied through the dynamic-value helper (`deepCopyValue`): what happens depends on
+      the dynamic type, per the spec's `dyn` table; a dynamic type without a case is assigned as-is -/
+  | dyn
   deriving DecidableEq, Repr, Inhabited
 
-/-- struct type ↦ modes of its fields, in declaration order -/
-abbrev Spec := List (String × List (String × Mode))
+/-- a copy specification: struct type ↦ modes of its fields, in declaration order; and the cases
+    of the dynamic-value helper: dynamic type ↦ mode applied to the value held by the `any` -/
+structure Spec where
+  structs : List (String × List (String × Mode))
+  dyn : List (Ty × Mode) := []
+  deriving Repr, Inhabited
+
+def lookupTy {α : Type} (t : List (Ty × α)) (k : Ty) : Option α :=
+  match t with
+  | [] => none
+  | (a, b) :: r => if a = k then some b else lookupTy r k
 
 def lookup {α : Type} (t : List (String × α)) (k : String) : Option α :=
   match t with
@@ -163,11 +194,17 @@ def copyNode (spec : Spec) : Mode → GoNode → Addr → GoNode × Addr
       let r := copyNode spec (.recur T) n (k + 1)
       (.ptr k r.1, r.2)
   | .recur T, .struct name fs, k =>
-      match lookup spec T with
+      match lookup spec.structs T with
       | some ms =>
           let r := copyF spec ms fs k
           (.struct name r.1, r.2)
       | none => (.struct name fs, k)
+  | .dyn, .iface t n, k =>
+      match lookupTy spec.dyn t with
+      | some m =>
+          let r := copyNode spec m n k
+          (.iface t r.1, r.2)
+      | none => (.iface t n, k)
   | _, n, k => (n, k)
 def copyL (spec : Spec) (m : Mode) : List GoNode → Addr → List GoNode × Addr
   | [], k => ([], k)
@@ -206,9 +243,13 @@ def safe (spec : Spec) : Mode → GoNode → Bool
   | .freshMap m, .gomap _ es => safeE spec m es
   | .viaPtrRec T, .ptr _ n => safe spec (.recur T) n
   | .recur T, .struct _ fs =>
-      match lookup spec T with
+      match lookup spec.structs T with
       | some ms => safeF spec ms fs
       | none => false
+  | .dyn, .iface t n =>
+      match lookupTy spec.dyn t with
+      | some m => safe spec m n
+      | none => (addrs n).isEmpty
   | _, _ => false
 def safeL (spec : Spec) (m : Mode) : List GoNode → Bool
   | [] => true
@@ -233,9 +274,13 @@ def clean (spec : Spec) : Mode → GoNode → Bool
   | .freshMap m, .gomap _ es => cleanE spec m es
   | .viaPtrRec T, .ptr _ n => clean spec (.recur T) n
   | .recur T, .struct _ fs =>
-      match lookup spec T with
+      match lookup spec.structs T with
       | some ms => cleanF spec ms fs
       | none => true
+  | .dyn, .iface t n =>
+      match lookupTy spec.dyn t with
+      | some m => clean spec m n
+      | none => (addrs n).isEmpty
   | _, _ => true
 def cleanL (spec : Spec) (m : Mode) : List GoNode → Bool
   | [] => true
@@ -251,16 +296,6 @@ end
 
 /-! ### Go types (from `Gen/IRFields.lean`) and well-typed nodes -/
 
-/-- the shape of a Go field type, as far as aliasing is concerned -/
-inductive Ty where
-  | imm
-  | slice (t : Ty)
-  | map (t : Ty)
-  | ptr (t : Ty)
-  | iface
-  | named (S : String)
-  deriving DecidableEq, Repr, Inhabited
-
 /-- struct type ↦ its fields with their types, in declaration order -/
 abbrev Env := List (String × List (String × Ty))
 
@@ -272,7 +307,7 @@ def hasTy (env : Env) : Ty → GoNode → Bool
   | .slice t, .slice _ es => hasTyL env t es
   | .map t, .gomap _ es => hasTyE env t es
   | .ptr t, .ptr _ n => hasTy env t n
-  | .iface, .iface _ => true
+  | .iface, .iface t n => hasTy env t n
   | .named S, .struct name fs =>
       name == S && (match lookup env S with
         | some ts => hasTyF env ts fs
@@ -305,10 +340,11 @@ def fits (env : Env) (spec : Spec) (fuel : Nat) : Mode → Ty → Bool
   | .byValue, t => immTy env fuel t
   | .freshSlice m, .slice t => fits env spec fuel m t
   | .freshMap m, .map t => fits env spec fuel m t
-  | .recur T, .named S => T == S && (lookup spec T).isSome
-  | .viaPtrRec T, .ptr (.named S) => T == S && (lookup spec T).isSome
+  | .recur T, .named S => T == S && (lookup spec.structs T).isSome
+  | .viaPtrRec T, .ptr (.named S) => T == S && (lookup spec.structs T).isSome
   | .shared, _ => true
   | .omitted, _ => true
+  | .dyn, .iface => true
   | _, _ => false
 
 def fitsF (env : Env) (spec : Spec) (fuel : Nat) : List (String × Mode) → List (String × Ty) → Bool
@@ -319,10 +355,17 @@ def fitsF (env : Env) (spec : Spec) (fuel : Nat) : List (String × Mode) → Lis
 /-- every struct of the copy table is a struct of the IR with the *same field list* (a field
     added in Go and unknown to the copy table breaks this), every mode fits its field's type,
     every `recur`/`viaPtrRec` target is in the table -/
-def tableOK (env : Env) (spec : Spec) (fuel : Nat) : Bool :=
-  spec.all (fun e => match lookup env e.1 with
+def structsOK (env : Env) (spec : Spec) (fuel : Nat) : Bool :=
+  spec.structs.all (fun e => match lookup env e.1 with
     | some ts => fitsF env spec fuel e.2 ts
     | none => false)
+
+/-- every case of the dynamic-value helper applies a mode that fits the case's dynamic type -/
+def dynOK (env : Env) (spec : Spec) (fuel : Nat) : Bool :=
+  spec.dyn.all (fun e => fits env spec fuel e.2 e.1)
+
+def tableOK (env : Env) (spec : Spec) (fuel : Nat) : Bool :=
+  structsOK env spec fuel && dynOK env spec fuel
 
 /-- the mode contains `shared` or `omitted` somewhere -/
 def Mode.bad : Mode → Bool
@@ -332,9 +375,35 @@ def Mode.bad : Mode → Bool
   | .freshMap m => m.bad
   | _ => false
 
-/-- all (struct, field, mode) entries of a table that are not good -/
+/-- all (struct, field, mode) entries of a table that are not good; a bad case of the
+    dynamic-value helper is listed under the pseudo-struct `any` -/
 def badEntries (spec : Spec) : List (String × String × Mode) :=
-  spec.flatMap (fun e => (e.2.filter (fun f => f.2.bad)).map (fun f => (e.1, f.1, f.2)))
+  spec.structs.flatMap (fun e => (e.2.filter (fun f => f.2.bad)).map (fun f => (e.1, f.1, f.2))) ++
+  (spec.dyn.filter (fun e => e.2.bad)).map (fun e => ("any", e.1.show, e.2))
+
+/-! ### the universe of dynamic types held by the IR's `any` fields -/
+
+mutual
+/-- every `any` inside the value holds a dynamic type of the universe `U` -/
+def dynIn (U : List Ty) : GoNode → Bool
+  | .imm _ => true
+  | .nilv => true
+  | .slice _ es => dynInL U es
+  | .gomap _ es => dynInE U es
+  | .ptr _ n => dynIn U n
+  | .iface t n => U.contains t && dynIn U n
+  | .struct _ fs => dynInE U fs
+def dynInL (U : List Ty) : List GoNode → Bool
+  | [] => true
+  | n :: r => dynIn U n && dynInL U r
+def dynInE (U : List Ty) : List (String × GoNode) → Bool
+  | [] => true
+  | (_, n) :: r => dynIn U n && dynInE U r
+end
+
+/-- every dynamic type of the universe is either rebuilt by the helper or cannot hold an address -/
+def dynCovers (env : Env) (spec : Spec) (fuel : Nat) (U : List Ty) : Bool :=
+  U.all (fun t => (lookupTy spec.dyn t).isSome || immTy env fuel t)
 
 /-- a well-typed value of struct `T` with the given fields set and every other field zero -/
 def mkStruct (env : Env) (T : String) (ovr : List (String × GoNode)) : GoNode :=
